@@ -25,7 +25,7 @@ INTEGRATE_KEYS = [
 DEFAULT_WEIGHTS = {
     "root": 2.0, "slice": 2.0, "multiply": 5.0, "product": 1.5, "get_density": 2.0, "normalize": 1.0,
     "marginal": 1.0, "linear_sum": 0.7, "condition_on": 1.2, "cond_x": 1.5, "set_y": 1.2, "affine": 3.0,
-    "update": 1.0, "update_sigma": 0.5, "obs": 6.0, "truncate": 0.8, "copy": 0.6, "replace": 1.0,
+    "update": 1.0, "update_sigma": 0.5, "obs": 6.0, "truncate": 0.8, "copy": 0.6, "replace": 1.0, "repeat": 1.2,
 }
 
 
@@ -350,6 +350,28 @@ class Gen:
         if s is None:
             return None
         return {"op": "copy", "a": s.id, "how": self.r.wchoice(["copy", "deepcopy", "pickle"], [3, 1, 1]), "out": self.nid()}
+
+    def g_repeat(self):
+        """Re-issue an earlier constructive operation on the same operand objects - preferably one whose
+        operand was mutated in place since (stale memo / cache carried across an update), otherwise any
+        (same call, other cache state)."""
+        r = self.r
+        cands, pref = [], []
+        for i, rec in enumerate(self.records):
+            if rec["op"] in ("root", "obs", "copy", "repeat") or rec["op"] in model.MUTATORS or "out" not in rec:
+                continue
+            ops = model.operands(rec)
+            if not ops or any(sid not in self.w.slots or self.w.slots[sid].tainted for sid in ops):
+                continue
+            mutated = any(y["op"] in model.MUTATORS and y.get("a") in ops for y in self.records[i + 1:])
+            (pref if mutated else cands).append(rec)
+        pool = pref if pref and r.coin(0.8) else (pref + cands)
+        if not pool:
+            return None
+        src = r.choice(pool)
+        rec = {k: v for k, v in src.items() if k not in ("_i", "_tw", "out")}
+        rec["out"] = self.nid()
+        return rec
 
     def g_replace(self):
         r = self.r
